@@ -203,6 +203,12 @@ std::tuple<DataSpace, DataSpace> DataSet::offsetCount2DataSpaces(const NDSize &c
                                                                  const NDSize &offset) const
 {
     DataSpace fileSpace = getSpace();
+    // H5Sselect_hyperslab reads `rank` entries from both arrays: fewer entries would be read past
+    // their end (longer vectors are tolerated, their first `rank` entries are used)
+    const size_t rank = fileSpace.extent().size();
+    if ((offset && offset.size() < rank) || (offset && count && count.size() < rank)) {
+        throw InvalidRank("count and offset need at least as many entries as the data has dimensions");
+    }
     DataSpace memSpace = DataSpace::create(count, false);
 
     if (offset && count) {
